@@ -11,7 +11,7 @@ use crate::sut::{guard, io_map_sorted, opts_default};
 use lipe_find_parser::compile;
 
 fn paths(r: &mut Rng) -> String {
-    let normalisable = ["/dev/mdt0/", "//", "a/b/", "./dev", "../x", " /dev/x", "/dev/x ", "", ".", "/DEV/MDT0", "/dev//mdt0", "~/mdt0", "%2fdev"];
+    let normalisable = ["/dev/mdt0/", "//", "a/b/", "./dev", "../x", " /dev/x", "/dev/x ", "", ".", "/DEV/MDT0", "/dev//mdt0", "~/mdt0", "%2fdev", "{}", "{mdt}", "{policy}", "{options}", "{definitions}", "{0}", "${mdt}", "%s"];
     if r.chance(1, 5) {
         return normalisable[r.usize(normalisable.len())].to_string();
     }
